@@ -175,6 +175,97 @@ Proof.
 Qed.
 Lemma inv_self : forall G rho th st x, inv G rho th st -> ~ In (cid_id x) (cids G) -> (cid_id x <= m0)%N -> th (rho x) = x.
 Proof. intros G rho th st x [] Hni Hle. rewrite inv_rho0; auto. Qed.
+(* ---------- aliasing: Core parameters that become names of existing AxCut variables ---------- *)
+Lemma subst_ident_notin : forall sub y, ~ In (cid_id y) (map fst sub) -> subst_ident sub y = y.
+Proof.
+  induction sub as [|[o nw] r IH]; intros y H; [reflexivity|]. simpl in *.
+  destruct (N.eqb o (cid_id y)) eqn:E; [apply N.eqb_eq in E; exfalso; apply H; now left|]. apply IH. tauto.
+Qed.
+Lemma subst_ident_range : forall sub y, subst_ident sub y = y \/ In (subst_ident sub y) (map snd sub).
+Proof.
+  induction sub as [|[o nw] r IH]; intros y; [now left|]. simpl.
+  destruct (N.eqb o (cid_id y)); [right; now left|]. destruct (IH y); [now left | right; now right].
+Qed.
+Lemma map_fst_combine_incl : forall {X Y} (a : list X) (b : list Y) x, In x (map fst (combine a b)) -> In x a.
+Proof. intros X Y a b x H. apply in_map_iff in H as ([u v] & <- & H). eapply in_combine_l; eauto. Qed.
+Lemma map_snd_combine_incl : forall {X Y} (a : list X) (b : list Y) x, In x (map snd (combine a b)) -> In x b.
+Proof. intros X Y a b x H. apply in_map_iff in H as ([u v] & <- & H). eapply in_combine_r; eauto. Qed.
+Lemma cids_app : forall a b, cids (a ++ b) = cids a ++ cids b.
+Proof. intros. unfold cids. apply map_app. Qed.
+Lemma subst_combine_map : forall ctx zs, NoDup (cids ctx) -> List.length zs = List.length ctx ->
+  map (fun b => subst_ident (combine (cids ctx) zs) (cbvar b)) ctx = zs.
+Proof.
+  induction ctx as [|b ctx IH]; intros [|z zs] Hnd Hlen; try discriminate; [reflexivity|].
+  cbn [cids map] in Hnd. inversion Hnd as [|? ? Hni Hnd']; subst. cbn [cids map combine subst_ident].
+  rewrite N.eqb_refl. f_equal.
+  transitivity (map (fun b0 => subst_ident (combine (cids ctx) zs) (cbvar b0)) ctx); [|apply IH; [exact Hnd' | simpl in Hlen; lia]].
+  apply map_ext_in. intros b' Hb'. destruct (N.eqb (cid_id (cbvar b)) (cid_id (cbvar b'))) eqn:E; [|reflexivity].
+  apply N.eqb_eq in E. exfalso. apply Hni. rewrite E. unfold cids. apply in_map_iff. eauto.
+Qed.
+
+Lemma inv_old : forall G rho th st ids zs b, inv G rho th st -> In b G ->
+  (forall i, In i ids -> ~ In i (cids G) /\ (i <= m0)%N) ->
+  subst_ident (combine ids zs) (rho (cbvar b)) = rho (cbvar b).
+Proof.
+  intros G rho th st ids zs b Hinv Hb Hids. apply subst_ident_notin. intros Hin. apply map_fst_combine_incl in Hin.
+  destruct (Hids _ Hin) as [H1 H2]. destruct (inv_rng _ _ _ _ Hinv b Hb) as [H|H]; [contradiction | lia].
+Qed.
+
+Lemma inv_ext : forall G rho th st ctx zs, inv G rho th st -> NoDup (cids ctx) ->
+  (forall i, In i (cids ctx) -> ~ In i (cids G) /\ (i <= m0)%N) ->
+  (forall z, In z zs -> In (cid_id z) (cids G) \/ (m0 < cid_id z)%N) ->
+  inv (ctx ++ G) (fun x => subst_ident (combine (cids ctx) zs) (rho x)) th st.
+Proof.
+  intros G rho th st ctx zs Hinv Hnd Hids Hzs. pose proof Hinv as []. constructor; auto.
+  - rewrite cids_app. apply NoDup_app_intro; auto. intros x H1 H2. apply (proj1 (Hids x H1)). exact H2.
+  - intros i Hi. rewrite cids_app in Hi. apply in_app_or in Hi as [Hi|Hi]; [apply Hids; exact Hi | auto].
+  - intros y Hy Hym. rewrite cids_app in Hy. rewrite inv_rho0; [|intros H; apply Hy; apply in_or_app; now right | exact Hym].
+    apply subst_ident_notin. intros Hin. apply map_fst_combine_incl in Hin. apply Hy. apply in_or_app. now left.
+  - intros y Hy. apply inv_th0. intros H. apply Hy. rewrite cids_app. apply in_or_app. now right.
+  - intros b Hb. rewrite cids_app. apply in_app_or in Hb as [Hb|Hb].
+    + assert (Hbi : In (cid_id (cbvar b)) (cids ctx)) by (unfold cids; apply in_map_iff; eauto).
+      destruct (Hids _ Hbi) as [H1 H2]. rewrite inv_rho0; auto.
+      destruct (subst_ident_range (combine (cids ctx) zs) (cbvar b)) as [E|E].
+      * rewrite E. left. apply in_or_app. now left.
+      * apply map_snd_combine_incl in E. destruct (Hzs _ E) as [H|H]; [left; apply in_or_app; now right | now right].
+    + rewrite (inv_old _ _ _ _ _ _ _ Hinv Hb Hids). destruct (inv_rng0 b Hb) as [H|H]; [left; apply in_or_app; now right | now right].
+Qed.
+
+Lemma erel_alias_list : forall n (need need' : cident -> Prop) pi pi' A G e ae,
+  erel p q n need pi A G e ae ->
+  (forall b, In b G -> need' (cbvar b) -> need (cbvar b) /\ idn (pi' (cbvar b)) = idn (pi (cbvar b))) ->
+  forall ctx vs avs e',
+  vrels p q n ctx vs avs ->
+  lookups ae (map (fun b => pi' (cbvar b)) ctx) = Some avs ->
+  (forall b, In b ctx -> In (idn (pi' (cbvar b))) A) ->
+  CoreSem.cbind (cvars ctx) vs e = Some e' ->
+  erel p q n need' pi' A (ctx ++ G) e' ae.
+Proof.
+  intros n need need' pi pi' A G e ae He Hpi.
+  induction ctx as [|b ctx IH]; intros vs avs e' Hv Hl HA Hcb.
+  - inversion Hv; subst. simpl in Hcb. inv Hcb. simpl.
+    unfold erel in *. eapply Forall2_impl_in; [exact He|]. intros b ev Hb [H1 H2].
+    split; [exact H1|]. intros Hn. destruct (Hpi b Hb Hn) as [Hn' Hid]. rewrite Hid. apply H2. exact Hn'.
+  - inversion Hv as [|? ? cv cvs av avs' Hv1 Hvr]; subst.
+    cbn [cvars map CoreSem.cbind] in Hcb. fold (cvars ctx) in Hcb.
+    destruct (CoreSem.cbind (cvars ctx) cvs e) as [e2|] eqn:Ecb; [|discriminate]. inv Hcb.
+    cbn [map lookups] in Hl. destruct (lookup_id ae (pi' (cbvar b))) as [av0|] eqn:El; [|discriminate].
+    destruct (lookups ae (map (fun b0 => pi' (cbvar b0)) ctx)) as [avr|] eqn:Elr; [|discriminate]. inv Hl.
+    cbn [app]. unfold erel. constructor.
+    + split; [reflexivity|]. intros _. cbn [fst snd]. split; [apply HA; now left|]. exists av. split; [exact El | exact Hv1].
+    + apply (IH cvs avs' e2 Hvr eq_refl (fun b0 Hb0 => HA b0 (or_intror Hb0)) Ecb).
+Qed.
+
+Lemma vrels_sig : forall n ctx sg vs avs, fparams_ok ctx sg = true -> vrels p q n sg vs avs -> vrels p q n ctx vs avs.
+Proof.
+  intros n. induction ctx as [|b ctx IH]; intros [|s sg] vs avs Hp Hv; simpl in Hp; try discriminate.
+  - exact Hv.
+  - apply andb_prop in Hp as [H1 H2]. apply csame_sig_eq in H1 as [Hc Ht].
+    inversion Hv; subst. constructor; [rewrite Hc, Ht; assumption | eapply IH; eauto].
+Qed.
+
+Lemma is_codata_same : forall ty, CoreSem.is_codata P ty = is_codata codata ty.
+Proof. destruct ty; reflexivity. Qed.
 End Base.
 
 Ltac crun0 H Hg := exfalso; eapply crun_0; [exact H | exact Hg].
